@@ -303,7 +303,7 @@ fn run_decl(c: &Decl) -> Outcome {
 // ---------------------------------------------------------------------------------------------
 // (b) repetition families (run in worker processes)
 
-const FAMILIES: [&str; 24] = [
+const FAMILIES: [&str; 25] = [
     "n marker packets before a literal message -> Message::from_bytes + read",
     "n padding packets before a literal message -> Message::from_bytes + read",
     "n marker packets -> PacketParser",
@@ -328,6 +328,7 @@ const FAMILIES: [&str; 24] = [
     "armor whose first header line holds only a form feed, then n header lines and no blank line, source refilled 8 KiB at a time -> Dearmor read_to_end",
     "armor whose first header line holds only a vertical tab / no-break space, then n header lines, a blank line and a body, source refilled 8 KiB at a time -> Dearmor read_to_end",
     "n prefixed signature packets + one one-pass signature + literal + n marker / padding packets + its signature -> Message::from_bytes + read + verify",
+    "cleartext document with n Hash: header lines -> CleartextSignedMessage::from_armor",
 ];
 
 fn family_input(fam: usize, n: usize) -> Vec<u8> {
@@ -371,6 +372,15 @@ fn family_input(fam: usize, n: usize) -> Vec<u8> {
             b.push(1);
             let skipped = [frame_min(10, b"PGP"), frame_min(21, &[0u8; 4])].concat();
             [rep(&s, n), frame_min(4, &b), lit, rep(&skipped, n / 2), s].concat()
+        }
+        24 => {
+            let m = CleartextSignedMessage::sign(crate::engine::rng(2), "text\n", &cert.primary_key, &Password::empty()).expect("sign");
+            let doc = m.to_armored_string(None.into()).expect("armor");
+            let (first, rest) = doc.split_once('\n').expect("lines");
+            let mut v = format!("{first}\n").into_bytes();
+            v.extend_from_slice(&rep(b"Hash: SHA256\n", n));
+            v.extend_from_slice(rest.as_bytes());
+            v
         }
         7 | 8 | 9 => {
             // split the genuine certificate into packets
@@ -533,7 +543,7 @@ fn family_run(fam: usize, x: &[u8]) -> &'static str {
                 }
             }
         }
-        13 => match CleartextSignedMessage::from_armor(x) {
+        13 | 24 => match CleartextSignedMessage::from_armor(x) {
             Ok((m, _)) => match m.verify(pk) {
                 Ok(_) => "parsed+verified",
                 Err(_) => "parsed",
@@ -1116,7 +1126,7 @@ pub fn check(ctx: &Ctx) {
         ctx,
         "repetition",
         true,
-        "24 repetition families (markers, padding, signatures, user ids, prefixed / one-pass signatures around a literal, prefixed signatures in front combined with skipped packets behind the data of a one-pass message, certificates with n user ids / certifications / subkeys, n certificates, armor header lines / leading text (slice source and 8 KiB-refill source) / blank lines / body lines, armored certificate with n headers, header sections that start with a whitespace-only line of FF / VT / NBSP, cleartext dash-escaped lines, subpackets in one area, user attribute packets), each at n, 2n, 8n (n = 25000 quick / 100000 thorough; signature-verifying families 1000..25000): allocation work (bytes, requests; deterministic) within x2.6 / x11, CPU time (best of 3, re-measured before it is believed) at 8n within x24 of n (linear x8, quadratic x64), peak <= 4 MiB + 96 x input; each family in its own watchdogged process (stack overflow / hang = finding)",
+        "25 repetition families (a cleartext document with n Hash: header lines, markers, padding, signatures, user ids, prefixed / one-pass signatures around a literal, prefixed signatures in front combined with skipped packets behind the data of a one-pass message, certificates with n user ids / certifications / subkeys, n certificates, armor header lines / leading text (slice source and 8 KiB-refill source) / blank lines / body lines, armored certificate with n headers, header sections that start with a whitespace-only line of FF / VT / NBSP, cleartext dash-escaped lines, subpackets in one area, user attribute packets), each at n, 2n, 8n (n = 25000 quick / 100000 thorough; signature-verifying families 1000..25000): allocation work (bytes, requests; deterministic) within x2.6 / x11, CPU time (best of 3, re-measured before it is believed) at 8n within x24 of n (linear x8, quadratic x64), peak <= 4 MiB + 96 x input; each family in its own watchdogged process (stack overflow / hang = finding)",
         FAMILIES.len() as u64,
         1,
         Duration::from_secs(tier.pick(120, 1200)),
